@@ -578,6 +578,7 @@ pub fn write_evidence(
             samples.push(s.clone());
         }
     }
+    let samples: Vec<Value> = samples.into_iter().map(trim_sample).collect();
     let mut cov = Map::new();
     cov.insert("evaluations".into(), json!(out.stats.evaluations));
     cov.insert("distinct_nontrivial".into(), json!(out.stats.nontrivial.len()));
@@ -715,4 +716,28 @@ pub fn fuzz_stage(ctx: &Ctx, out: &mut Outcome, target: &str, runs_per_job: u64,
     out.stats.evaluations += total;
     out.stats.class_n(&format!("libFuzzer executions ({})", target), total);
     out.stages.push(json!({"stage": format!("libfuzzer:{}", target), "cases": total, "jobs": jobs, "wall_s": t0.elapsed().as_secs_f64()}));
+}
+
+/// keep evidence files readable: long strings and long arrays inside a sample are cut (with a note of what was cut)
+fn trim_sample(v: Value) -> Value {
+    match v {
+        Value::String(t) => {
+            let n = t.chars().count();
+            if n > 400 {
+                Value::String(format!("{}…(+{} characters)", t.chars().take(400).collect::<String>(), n - 400))
+            } else {
+                Value::String(t)
+            }
+        }
+        Value::Array(a) => {
+            let n = a.len();
+            let mut out: Vec<Value> = a.into_iter().take(24).map(trim_sample).collect();
+            if n > 24 {
+                out.push(Value::String(format!("…(+{} items)", n - 24)));
+            }
+            Value::Array(out)
+        }
+        Value::Object(m) => Value::Object(m.into_iter().map(|(k, x)| (k, trim_sample(x))).collect()),
+        other => other,
+    }
 }
